@@ -21,7 +21,7 @@ Proof. intros H. simpl. rewrite H. reflexivity. Qed.
 Theorem cut_absent_rejected s id :
   nmem id (w_structs s) = false ->
   step s (Cut id) = (s, Some ENotPresent) /\ step s (Remove id) = (s, Some ENotPresent).
-Proof. intros H. simpl. unfold remove_op. rewrite H. simpl. split; reflexivity. Qed.
+Proof. intros H. simpl. unfold cut_op, remove_op, detach_op. rewrite H. simpl. split; reflexivity. Qed.
 
 (* every validation failure of connect leaves the state untouched: the only way for
    [step s (Connect x y)] to return a changed state together with an error is a stale
